@@ -167,3 +167,23 @@ def generate_json(spec, cfg, outfile, env=None, **kw):
     if not os.path.exists(outfile):
         raise TlcError("%s/%s wrote no case file\n%s" % (spec, cfg, r["out"][-3000:]))
     return json.load(open(outfile)), r
+
+
+def run_apalache(spec, args, expect_error=False, timeout=900):
+    """apalache-mc check on spec/<spec>; returns {ok, wall_s, out}.  ok means: outcome NoError (or, with expect_error,
+    a counterexample was found)."""
+    out_dir = tempfile.mkdtemp(prefix="apa_", dir=_work())
+    t0 = time.time()
+    try:
+        r = subprocess.run(["apalache-mc", "check", "--out-dir=" + out_dir] + args + [spec], cwd=SPEC, capture_output=True, text=True, timeout=timeout)
+        out = r.stdout + r.stderr
+    except subprocess.TimeoutExpired as e:
+        out = "timeout"
+    finally:
+        shutil.rmtree(out_dir, ignore_errors=True)
+    no_error = "The outcome is: NoError" in out
+    found = "The outcome is: Error" in out and "invariant" in out
+    ok = found if expect_error else no_error
+    if not ok:
+        raise TlcError("apalache %s %s: unexpected outcome\n%s" % (spec, " ".join(args), out[-3000:]))
+    return {"ok": True, "wall_s": round(time.time() - t0, 1), "args": args}
